@@ -215,6 +215,7 @@ where
 
     // Track spawned hedge tasks
     let mut hedges_spawned: usize = 0;
+    let mut failures: usize = 0;
     let mut primary_error: Option<S::Error> = None;
 
     // Get delay for first hedge
@@ -259,9 +260,9 @@ where
                                     if attempt == 0 {
                                         primary_error = Some(e.clone());
                                     }
-                                    // Check if all attempts exhausted
-                                    if hedges_spawned + 1 >= max_attempts {
-                                        // All spawned, check if this was the last result
+                                    failures += 1;
+                                    // Only give up once every attempt has been started and has failed
+                                    if failures >= max_attempts {
                                         config.listeners.emit(&HedgeEvent::AllFailed {
                                             name: config.name.clone(),
                                             attempts: hedges_spawned + 1,
